@@ -183,6 +183,24 @@ func c18Check(c *Ctx, p *Prog, m *Model) {
 				if !hp {
 					probs = append(probs, "the replacement is not guarded by HasPrefix(current, k) with the same k")
 				}
+				// whether an entry applies depends on the path and its key only, never on the replacement text
+				for _, g := range guardsOf(call.Block()) {
+					cond, _ := normCond(g.If.Cond)
+					conds := []ssa.Value{cond}
+					if ph, isPhi := cond.(*ssa.Phi); isPhi {
+						conds = append(conds, ph.Edges...)
+						for _, pr := range ph.Block().Preds {
+							if pi := ifOf(pr); pi != nil {
+								conds = append(conds, pi.Cond)
+							}
+						}
+					}
+					for _, cd := range conds {
+						if dependsDirect(cd, ev) {
+							probs = append(probs, "a table entry is skipped depending on its replacement text: a registered prefix mapped to such a replacement is reported verbatim")
+						}
+					}
+				}
 				if ek.Index != 1 || ev.Index != 2 {
 					probs = append(probs, "key and replacement are swapped")
 				}
@@ -342,6 +360,18 @@ func c18Check(c *Ctx, p *Prog, m *Model) {
 				if g, ok := globalLoad(call.Common().Args[1]); ok && nm(g) == "homeDir" && isPrivGuard(b) {
 					// the true edge rewrites to "~"+rest
 					home = true
+					// ... whatever the other privacy flag says
+					flagRe, _ := p.ConstInt(p.Slog, "Lprivacypathregexp")
+					for _, gd := range guardsOf(b) {
+						cond, _ := normCond(gd.If.Cond)
+						if c2, isCall := cond.(*ssa.Call); isCall {
+							if cal2 := calleeOf(c2); cal2 != nil && (nm(cal2) == "IsAnyBitsSet" || nm(cal2) == "IsAllBitsSet") {
+								if v, isC := constInt(c2.Common().Args[0]); isC && v == flagRe {
+									r.Bad("R18.4", "home:independent", p.Pos(instrPos(call)), "the home-directory rewrite is conditional on the regexp privacy flag: with that flag in its other state (the production default has both on) paths under the home directory keep their prefix once the table entry is gone")
+								}
+							}
+						}
+					}
 				}
 			}
 		}
@@ -451,4 +481,33 @@ func idxNonNeg(v ssa.Value, b *ssa.BasicBlock) bool {
 		}
 	}
 	return false
+}
+
+// dependsDirect: v is computed from target without passing through a phi (i.e. within one loop iteration).
+func dependsDirect(v, target ssa.Value) bool {
+	seen := map[ssa.Value]bool{}
+	var walk func(v ssa.Value) bool
+	walk = func(v ssa.Value) bool {
+		if v == nil || seen[v] {
+			return false
+		}
+		seen[v] = true
+		if v == target {
+			return true
+		}
+		if _, isPhi := v.(*ssa.Phi); isPhi {
+			return false
+		}
+		in, ok := v.(ssa.Instruction)
+		if !ok {
+			return false
+		}
+		for _, op := range in.Operands(nil) {
+			if *op != nil && walk(*op) {
+				return true
+			}
+		}
+		return false
+	}
+	return walk(v)
 }
